@@ -25,6 +25,7 @@ def run(ctx):
     for ver in ("v4", "v5"):
         ctx.guarded("R-C02-drain", drain, ctx, prog, ver)
         ctx.guarded("R-C02-collision-siblings", siblings, ctx, prog, ver)
+        ctx.guarded("R-C02-collision-guard", collision_guard, ctx, prog, ver)
         ctx.guarded("R-C02-record-before-send", record, ctx, prog, ver)
         ctx.guarded("R-C02-clean-on-error", clean_on_error, ctx, prog, ver)
         ctx.guarded("R-C02-release-roles", roles, ctx, prog, ver)
@@ -58,6 +59,48 @@ def drain(ctx, prog, ver):
             ctx.violation(rule, clean.id, "field %s not drained" % f,
                           "MqttState.%s can hold an accepted publish/release but MqttState::clean() does not move it into the returned requests: it is neither retransmitted nor released after a connection failure" % f,
                           site=clean.fn_loc())
+
+
+def collision_guard(ctx, prog, ver):
+    """R-C02-collision-guard: check_collision removes the parked publish from `collision` only on the
+    edge where its packet id equals the acknowledged id (an ack for another id must leave it parked)"""
+    rule = "R-C02-collision-guard"
+    body = state_fn(prog, ver, "check_collision")
+    bodies = [body] + [b for b in prog.A.values() if b.root == body.id]
+    takes = []
+    for b in bodies:
+        for bb, t in b.calls():
+            if b.is_cleanup(bb):
+                continue
+            fs = [x.split(".")[-1].lstrip("^") for x in (receiver_fields(b, t) or [])]
+            if callee_path(t).endswith("Option::<T>::take") and fs[-1:] == ["collision"]:
+                takes.append((b, bb, t))
+    if not takes:
+        ctx.violation(rule, body.id, "no take", "check_collision never takes the parked publish: a collision can never be resolved", site=body.fn_loc())
+        return
+    for b, bb, t in takes:
+        dom = dominators(b)
+        guarded = False
+        for bi, blk in enumerate(b.blocks):
+            tt = blk["t"]
+            if tt["k"] != "switch" or blk.get("cleanup") or bi not in dom.get(bb, ()):
+                continue
+            l = op_local(tt["on"])
+            d = single_def(b, l) if l is not None else None
+            if d and d[2] == "assign" and d[3]["rv"]["k"] == "bin" and d[3]["rv"]["op"] in ("Eq", "Ne"):
+                srcs = flatten_src(provenance(b, d[3]["rv"]["a"])) + flatten_src(provenance(b, d[3]["rv"]["b"]))
+                has_param = any(s.kind == "param" and s.l == 2 and not s.fields for s in srcs)
+                has_pkid = any(getattr(s, "fields", None) and s.fields[-1] == "pkid" for s in srcs)
+                zero = [x for v, x in tt["targets"] if v == 0]
+                edge = tt["otherwise"] if d[3]["rv"]["op"] == "Eq" else (zero[0] if zero else None)
+                if has_param and has_pkid and edge is not None and edge in dom.get(bb, ()):
+                    guarded = True
+        if guarded and b is body:
+            ctx.ok(rule, body.id, "collision.take() only on the `publish.pkid == pkid` edge", site=b.loc(t.get("sp")))
+        else:
+            ctx.violation(rule, body.id, "collision taken for any ack",
+                          "check_collision takes the parked publish out of `collision` before (or without) comparing its packet id with the acknowledged id: an ack for a different id drops the parked publish",
+                          site=b.loc(t.get("sp")))
 
 
 def collision_sites(prog, ver):
